@@ -1079,8 +1079,7 @@ inline constexpr void Conversion<Unit::VolumeRate, Unit::VolumeRate::CubicMicroi
 }
 
 template <typename NumericType>
-inline const std::map<Unit::VolumeRate,
-                      std::function<void(NumericType* const, const std::size_t size)>>
+inline const ConversionTable<Unit::VolumeRate, NumericType>
     MapOfConversionsFromStandard<Unit::VolumeRate, NumericType>{
       {Unit::VolumeRate::CubicMetrePerSecond,
        Conversions<Unit::VolumeRate, Unit::VolumeRate::CubicMetrePerSecond>::
@@ -1217,8 +1216,7 @@ inline const std::map<Unit::VolumeRate,
 };
 
 template <typename NumericType>
-inline const std::map<Unit::VolumeRate,
-                      std::function<void(NumericType* values, const std::size_t size)>>
+inline const ConversionTable<Unit::VolumeRate, NumericType>
     MapOfConversionsToStandard<Unit::VolumeRate, NumericType>{
       {Unit::VolumeRate::CubicMetrePerSecond,
        Conversions<Unit::VolumeRate, Unit::VolumeRate::CubicMetrePerSecond>::
